@@ -18,6 +18,7 @@ ASSUMPTIONS = ["which clients the getProperties relay reaches is decided by C05"
                "enableBLOB from an unregistered sender is outside the quantifier"]
 REQUIRED_EVENTS = ["states", "transitions", "client_originated_messages", "deliveries_observed"]
 EXHAUSTIVE_NOTE = "quick: universe 2 devices (A, real driver B) + catch-all x 2 clients, complete; thorough: 3 devices x 3 clients, complete"
+QUICK_SHARDS = 4
 JUDGE = "client"
 
 
@@ -33,7 +34,7 @@ def run(ctx):
     n = ex.bfs(shard=(ctx.mine if ctx.nshards > 1 else None))
     ctx.notes["model_states_enumerated"] = n
     big = X.Universe(["D0", "D1", "D2", "D3", "*"], ["c0", "c1", "c2", "c3", "c4"], real_drivers=("D1", "D3"))
-    nh = 300 if not ctx.thorough else 20000
+    nh = 1200 if not ctx.thorough else 20000
     for i in range(nh):
         if ctx.mine(i):
             X.random_history(ctx, big, JUDGE, i, 60)
